@@ -47,8 +47,10 @@ type UnitResult struct {
 }
 
 var (
-	quickTimeout    = 10 * time.Second
-	fastTimeout     = 3 * time.Second
+	// the slowest single query of the quick tier takes about 6 s on a loaded 16-core machine (evidence key
+	// max_query_s); the limits leave a factor of five so that a busy harness does not turn a proof into an alarm
+	quickTimeout    = 30 * time.Second
+	fastTimeout     = 5 * time.Second
 	workers         = 14
 	crossCheck      = false
 	queryCache      sync.Map
